@@ -898,6 +898,9 @@ func run(ctx *Ctx) *Result {
 		var states []*iosDev
 		for i, cmd := range cmds {
 			if err := ex.exec1(cmd); err != nil {
+				if f["wf"] == "1" {
+					res.Disagree("F2: wfB holds but dev.go rejects a command of the real script (contradicts ios_F2_converges_partial)", c, cmd, err.Error())
+				}
 				if prop == "C08" || prop == "C02" || prop == "C10" {
 					s := sig("command_rejected_by_strict_device")
 					s["reason"] = rejectClass(err.Error())
@@ -913,6 +916,9 @@ func run(ctx *Ctx) *Result {
 		}
 		if prop == "C02" {
 			if got := final.managedView(intfs, rvrfs, withRoutes); got != wantView {
+				if f["wf"] == "1" {
+					res.Disagree("F2: wfB holds but the executed result is not equivalent to the target (contradicts ios_F2_converges_partial)", c, got, wantView)
+				}
 				s := sig("acl_not_converged")
 				s["suppressed_move_at_remark"] = remarkSuppr
 				res.Fail(s, "after executing the script the managed part differs from the target:\n"+got+"-- want\n"+wantView, c)
